@@ -92,6 +92,7 @@ package uhppote
 //@ func sendto$1
 //@   returns (res, err)
 //@   requires client: u != nil && u.driver != nil && len(m) == 64
+//@   modifies sent.n, sent.kind, sent.iplen, sent.ipb, sent.port, sent.bytes, recv.n, recv.len, recv.bytes
 //@   define N0 = old(sent.n)
 //@   define R0 = old(recv.n)
 //@   ensures once:   sent.n == N0 + 1
@@ -126,6 +127,7 @@ package uhppote
 //@   params u, controllerID, readers
 //@   returns (ok, err)
 //@   requires client: u != nil && u.driver != nil
+//@   modifies sent.n, sent.kind, sent.iplen, sent.ipb, sent.port, sent.bytes, recv.n, recv.len, recv.bytes
 //@   define N0 = old(sent.n)
 //@   define B = sent.bytes[N0]
 //@   define R = recv.bytes[old(recv.n)]
@@ -140,6 +142,7 @@ package uhppote
 //@   params u, deviceID, task
 //@   returns (ok, err)
 //@   requires client: u != nil && u.driver != nil
+//@   modifies sent.n, sent.kind, sent.iplen, sent.ipb, sent.port, sent.bytes, recv.n, recv.len, recv.bytes
 //@   define N0 = old(sent.n)
 //@   define B = sent.bytes[N0]
 //@   define R = recv.bytes[old(recv.n)]
@@ -154,6 +157,7 @@ package uhppote
 //@   params u, deviceID
 //@   returns (ok, err)
 //@   requires client: u != nil && u.driver != nil
+//@   modifies sent.n, sent.kind, sent.iplen, sent.ipb, sent.port, sent.bytes, recv.n, recv.len, recv.bytes
 //@   define N0 = old(sent.n)
 //@   define B = sent.bytes[N0]
 //@   define R = recv.bytes[old(recv.n)]
@@ -168,6 +172,7 @@ package uhppote
 //@   params u, deviceID
 //@   returns (ok, err)
 //@   requires client: u != nil && u.driver != nil
+//@   modifies sent.n, sent.kind, sent.iplen, sent.ipb, sent.port, sent.bytes, recv.n, recv.len, recv.bytes
 //@   define N0 = old(sent.n)
 //@   define B = sent.bytes[N0]
 //@   define R = recv.bytes[old(recv.n)]
@@ -182,6 +187,7 @@ package uhppote
 //@   params u, deviceID
 //@   returns (ok, err)
 //@   requires client: u != nil && u.driver != nil
+//@   modifies sent.n, sent.kind, sent.iplen, sent.ipb, sent.port, sent.bytes, recv.n, recv.len, recv.bytes
 //@   define N0 = old(sent.n)
 //@   define B = sent.bytes[N0]
 //@   define R = recv.bytes[old(recv.n)]
@@ -196,6 +202,7 @@ package uhppote
 //@   params u, deviceID
 //@   returns (ok, err)
 //@   requires client: u != nil && u.driver != nil
+//@   modifies sent.n, sent.kind, sent.iplen, sent.ipb, sent.port, sent.bytes, recv.n, recv.len, recv.bytes
 //@   define N0 = old(sent.n)
 //@   define B = sent.bytes[N0]
 //@   define R = recv.bytes[old(recv.n)]
@@ -210,6 +217,7 @@ package uhppote
 //@   params u, controller
 //@   returns (ok, err)
 //@   requires client: u != nil && u.driver != nil
+//@   modifies sent.n, sent.kind, sent.iplen, sent.ipb, sent.port, sent.bytes, recv.n, recv.len, recv.bytes
 //@   define N0 = old(sent.n)
 //@   define B = sent.bytes[N0]
 //@   define R = recv.bytes[old(recv.n)]
@@ -224,6 +232,7 @@ package uhppote
 //@   params u, deviceID, cardNumber
 //@   returns (ok, err)
 //@   requires client: u != nil && u.driver != nil
+//@   modifies sent.n, sent.kind, sent.iplen, sent.ipb, sent.port, sent.bytes, recv.n, recv.len, recv.bytes
 //@   define N0 = old(sent.n)
 //@   define B = sent.bytes[N0]
 //@   define R = recv.bytes[old(recv.n)]
@@ -238,6 +247,7 @@ package uhppote
 //@   params u, deviceID
 //@   returns (n, err)
 //@   requires client: u != nil && u.driver != nil
+//@   modifies sent.n, sent.kind, sent.iplen, sent.ipb, sent.port, sent.bytes, recv.n, recv.len, recv.bytes
 //@   define N0 = old(sent.n)
 //@   define B = sent.bytes[N0]
 //@   define R = recv.bytes[old(recv.n)]
@@ -252,6 +262,7 @@ package uhppote
 //@   params u, deviceID
 //@   returns (res, err)
 //@   requires client: u != nil && u.driver != nil
+//@   modifies sent.n, sent.kind, sent.iplen, sent.ipb, sent.port, sent.bytes, recv.n, recv.len, recv.bytes
 //@   define N0 = old(sent.n)
 //@   define B = sent.bytes[N0]
 //@   define R = recv.bytes[old(recv.n)]
@@ -266,6 +277,7 @@ package uhppote
 //@   params u, serialNumber
 //@   returns (res, err)
 //@   requires client: u != nil && u.driver != nil
+//@   modifies sent.n, sent.kind, sent.iplen, sent.ipb, sent.port, sent.bytes, recv.n, recv.len, recv.bytes
 //@   define N0 = old(sent.n)
 //@   define B = sent.bytes[N0]
 //@   define R = recv.bytes[old(recv.n)]
@@ -280,6 +292,7 @@ package uhppote
 //@   params u, serialNumber, datetime
 //@   returns (res, err)
 //@   requires client: u != nil && u.driver != nil
+//@   modifies sent.n, sent.kind, sent.iplen, sent.ipb, sent.port, sent.bytes, recv.n, recv.len, recv.bytes
 //@   define N0 = old(sent.n)
 //@   define B = sent.bytes[N0]
 //@   define R = recv.bytes[old(recv.n)]
@@ -294,6 +307,7 @@ package uhppote
 //@   params u, deviceID, door
 //@   returns (res, err)
 //@   requires client: u != nil && u.driver != nil
+//@   modifies sent.n, sent.kind, sent.iplen, sent.ipb, sent.port, sent.bytes, recv.n, recv.len, recv.bytes
 //@   define N0 = old(sent.n)
 //@   define B = sent.bytes[N0]
 //@   define R = recv.bytes[old(recv.n)]
@@ -308,6 +322,7 @@ package uhppote
 //@   params u, deviceID, enable
 //@   returns (ok, err)
 //@   requires client: u != nil && u.driver != nil
+//@   modifies sent.n, sent.kind, sent.iplen, sent.ipb, sent.port, sent.bytes, recv.n, recv.len, recv.bytes
 //@   define N0 = old(sent.n)
 //@   define B = sent.bytes[N0]
 //@   define R = recv.bytes[old(recv.n)]
@@ -322,6 +337,7 @@ package uhppote
 //@   params u, deviceID, enable
 //@   returns (ok, err)
 //@   requires client: u != nil && u.driver != nil
+//@   modifies sent.n, sent.kind, sent.iplen, sent.ipb, sent.port, sent.bytes, recv.n, recv.len, recv.bytes
 //@   define N0 = old(sent.n)
 //@   define B = sent.bytes[N0]
 //@   define R = recv.bytes[old(recv.n)]
@@ -336,6 +352,7 @@ package uhppote
 //@   params u, controllerID, interlock
 //@   returns (ok, err)
 //@   requires client: u != nil && u.driver != nil
+//@   modifies sent.n, sent.kind, sent.iplen, sent.ipb, sent.port, sent.bytes, recv.n, recv.len, recv.bytes
 //@   define N0 = old(sent.n)
 //@   define B = sent.bytes[N0]
 //@   define R = recv.bytes[old(recv.n)]
@@ -350,6 +367,7 @@ package uhppote
 //@   params u, deviceID, index
 //@   returns (res, err)
 //@   requires client: u != nil && u.driver != nil
+//@   modifies sent.n, sent.kind, sent.iplen, sent.ipb, sent.port, sent.bytes, recv.n, recv.len, recv.bytes
 //@   define N0 = old(sent.n)
 //@   define B = sent.bytes[N0]
 //@   define R = recv.bytes[old(recv.n)]
@@ -364,6 +382,7 @@ package uhppote
 //@   params u, serialNumber, door
 //@   returns (res, err)
 //@   requires client: u != nil && u.driver != nil
+//@   modifies sent.n, sent.kind, sent.iplen, sent.ipb, sent.port, sent.bytes, recv.n, recv.len, recv.bytes
 //@   define N0 = old(sent.n)
 //@   define B = sent.bytes[N0]
 //@   define R = recv.bytes[old(recv.n)]
@@ -378,6 +397,7 @@ package uhppote
 //@   params u, serialNumber, door, state, delay
 //@   returns (res, err)
 //@   requires client: u != nil && u.driver != nil
+//@   modifies sent.n, sent.kind, sent.iplen, sent.ipb, sent.port, sent.bytes, recv.n, recv.len, recv.bytes
 //@   define N0 = old(sent.n)
 //@   define B = sent.bytes[N0]
 //@   define R = recv.bytes[old(recv.n)]
@@ -392,6 +412,7 @@ package uhppote
 //@   params u, controller, door, passcodes
 //@   returns (ok, err)
 //@   requires client: u != nil && u.driver != nil
+//@   modifies sent.n, sent.kind, sent.iplen, sent.ipb, sent.port, sent.bytes, recv.n, recv.len, recv.bytes
 //@   define N0 = old(sent.n)
 //@   define B = sent.bytes[N0]
 //@   define R = recv.bytes[old(recv.n)]
@@ -407,6 +428,7 @@ package uhppote
 //@   params u, controller, address, interval
 //@   returns (ok, err)
 //@   requires client: u != nil && u.driver != nil
+//@   modifies sent.n, sent.kind, sent.iplen, sent.ipb, sent.port, sent.bytes, recv.n, recv.len, recv.bytes
 //@   define N0 = old(sent.n)
 //@   define B = sent.bytes[N0]
 //@   define R = recv.bytes[old(recv.n)]
@@ -422,6 +444,7 @@ package uhppote
 //@   params u, serialNumber, address, mask, gateway
 //@   returns (res, err)
 //@   requires client: u != nil && u.driver != nil
+//@   modifies sent.n, sent.kind, sent.iplen, sent.ipb, sent.port, sent.bytes, recv.n, recv.len, recv.bytes
 //@   define N0 = old(sent.n)
 //@   define B = sent.bytes[N0]
 //@   define R = recv.bytes[old(recv.n)]
@@ -435,6 +458,7 @@ package uhppote
 //@   params u, serialNumber
 //@   returns (addr, interval, err)
 //@   requires client: u != nil && u.driver != nil
+//@   modifies sent.n, sent.kind, sent.iplen, sent.ipb, sent.port, sent.bytes, recv.n, recv.len, recv.bytes
 //@   define N0 = old(sent.n)
 //@   define B = sent.bytes[N0]
 //@   define R = recv.bytes[old(recv.n)]
@@ -449,6 +473,7 @@ package uhppote
 //@   params u, deviceID, index
 //@   returns (res, err)
 //@   requires client: u != nil && u.driver != nil
+//@   modifies sent.n, sent.kind, sent.iplen, sent.ipb, sent.port, sent.bytes, recv.n, recv.len, recv.bytes
 //@   define N0 = old(sent.n)
 //@   define B = sent.bytes[N0]
 //@   define R = recv.bytes[old(recv.n)]
@@ -463,6 +488,7 @@ package uhppote
 //@   params u, deviceID, index
 //@   returns (res, err)
 //@   requires client: u != nil && u.driver != nil
+//@   modifies sent.n, sent.kind, sent.iplen, sent.ipb, sent.port, sent.bytes, recv.n, recv.len, recv.bytes
 //@   define N0 = old(sent.n)
 //@   define B = sent.bytes[N0]
 //@   define R = recv.bytes[old(recv.n)]
@@ -477,6 +503,7 @@ package uhppote
 //@   params u, deviceID, cardNumber
 //@   returns (res, err)
 //@   requires client: u != nil && u.driver != nil
+//@   modifies sent.n, sent.kind, sent.iplen, sent.ipb, sent.port, sent.bytes, recv.n, recv.len, recv.bytes
 //@   define N0 = old(sent.n)
 //@   define B = sent.bytes[N0]
 //@   define R = recv.bytes[old(recv.n)]
@@ -491,6 +518,7 @@ package uhppote
 //@   params u, deviceID, card, formats
 //@   returns (ok, err)
 //@   requires client: u != nil && u.driver != nil
+//@   modifies sent.n, sent.kind, sent.iplen, sent.ipb, sent.port, sent.bytes, recv.n, recv.len, recv.bytes
 //@   define N0 = old(sent.n)
 //@   define B = sent.bytes[N0]
 //@   define R = recv.bytes[old(recv.n)]
@@ -506,6 +534,7 @@ package uhppote
 //@   params u, deviceID, profileID
 //@   returns (res, err)
 //@   requires client: u != nil && u.driver != nil
+//@   modifies sent.n, sent.kind, sent.iplen, sent.ipb, sent.port, sent.bytes, recv.n, recv.len, recv.bytes
 //@   define N0 = old(sent.n)
 //@   define B = sent.bytes[N0]
 //@   define R = recv.bytes[old(recv.n)]
@@ -520,6 +549,7 @@ package uhppote
 //@   params u, deviceID, profile
 //@   returns (ok, err)
 //@   requires client: u != nil && u.driver != nil
+//@   modifies sent.n, sent.kind, sent.iplen, sent.ipb, sent.port, sent.bytes, recv.n, recv.len, recv.bytes
 //@   define N0 = old(sent.n)
 //@   define B = sent.bytes[N0]
 //@   define R = recv.bytes[old(recv.n)]
@@ -535,6 +565,7 @@ package uhppote
 //@   params u, serialNumber
 //@   returns (res, err)
 //@   requires client: u != nil && u.driver != nil
+//@   modifies sent.n, sent.kind, sent.iplen, sent.ipb, sent.port, sent.bytes, recv.n, recv.len, recv.bytes
 //@   define N0 = old(sent.n)
 //@   define B = sent.bytes[N0]
 //@   define R = recv.bytes[old(recv.n)]
@@ -549,6 +580,7 @@ package uhppote
 //@   params u, serialNumber
 //@   returns (res, err)
 //@   requires client: u != nil && u.driver != nil
+//@   modifies sent.n, sent.kind, sent.iplen, sent.ipb, sent.port, sent.bytes, recv.n, recv.len, recv.bytes
 //@   define N0 = old(sent.n)
 //@   define B = sent.bytes[N0]
 //@   define R = recv.bytes[old(recv.n)]
